@@ -121,6 +121,18 @@ def run(rep):
         rep.ok("decode-invariant", nm + "/route", sample="Deserialize = decode %s ; TryFrom" % ty_str(m["reader"][1]))
     validators(rep, pkr, skr)
     # ---- canonical leaves
+    canonical_leaves(rep)
+    codec_pairs(rep, wm)
+    text_codec(rep)
+    rep.assumptions += ["bls12_381's checked decoders accept exactly canonical, on-curve, in-subgroup encodings; bincode / serde framing is deterministic",
+                        "`behaves identically afterwards` follows from byte equality for these plain-data types (not separately analysed)"]
+
+
+def canonical_leaves(rep):
+    """Every group element / scalar that can come off the wire went through bls12_381's checked decoder: decode-reachable
+    crate code calls no unchecked decoder, and the three leaf codecs return Ok exactly on the checked decoder's success.
+    Shared, under the name `wire-group-membership`, by the properties whose verifiers assume prime-order group elements."""
+    prog = rep.prog
     entries = decode_entry_points(prog)
     rep.floor("decode entry points", len(entries), 300)
     reach = reachable_local(prog, entries)
@@ -139,10 +151,12 @@ def run(rep):
                     rep.ok("canonical-leaves", "%s@%s" % (q.split("::", 1)[1], b.id.split("::")[-2]), sample="checked decoder", nontrivial=False)
     rep.floor("leaf decoder call sites on decode paths", nleaf, 3)
     leaf_codecs(rep)
-    codec_pairs(rep, wm)
-    text_codec(rep)
-    rep.assumptions += ["bls12_381's checked decoders accept exactly canonical, on-curve, in-subgroup encodings; bincode / serde framing is deterministic",
-                        "`behaves identically afterwards` follows from byte equality for these plain-data types (not separately analysed)"]
+
+
+def wire_group_membership(rep):
+    from ..core import RuleView
+    rep.rule("wire-group-membership", "necessary condition shared with C15: every G1/G2 element and scalar a verifier receives from the wire was accepted by the checked (on-curve, in-subgroup, canonical) decoder - an element with a cofactor component pairs to 1 with everything and voids the pairing / Schnorr equations")
+    canonical_leaves(RuleView(rep, {"canonical-leaves": "wire-group-membership"}))
 
 
 def codecs_equal(wm, wc, rc):
